@@ -10,7 +10,7 @@ import hashlib
 import json
 
 from sim import bootstrap  # noqa: F401  (sys.path, logging, clock)
-from sim import simreactor, budget, refpeer
+from sim import simreactor, budget, refpeer, simfs
 
 from oslo_config import cfg
 
@@ -163,10 +163,10 @@ class World(object):
         self.factory = None
         self.handler = None
         self.exited = False
+        self.crashed = False
         self.rest_log = []
         self.boots = 0
-        self.instant_events = 0
-        self._last_instant = None
+        bootstrap.FILE_CLOCK.n = 0
         self.boot()
 
     # ------------------------------------------------------------------ logging
@@ -247,6 +247,17 @@ class World(object):
         so("write_msg_max_size", 500, group="message")
         so("last_time", 0, group="keep_alive")
         self.note("boot", self.boots)
+        import yabgp.handler.default_handler as dh
+        import builtins
+        import os as real_os
+        if self.fs is not None:
+            dh.open = self.fs.open
+            dh.os = self.fs.os
+            agent.os = self.fs.os
+        else:
+            dh.__dict__.pop("open", None)
+            dh.os = real_os
+            agent.os = real_os
         try:
             get_bgp_config()
             if c["handler"] == "default":
@@ -263,6 +274,8 @@ class World(object):
             self.exited = True
             self.factory = None
             self.note("exit", "boot")
+        except simfs.Crash as c:
+            self.on_crash("boot", c)
         except budget.StepBudgetExceeded:
             raise
         except Exception as e:  # start-up must not raise
@@ -299,6 +312,8 @@ class World(object):
             return func(*args)
         except budget.StepBudgetExceeded:
             self.note("budget", where, budget.last_count())
+        except simfs.Crash as c:
+            self.on_crash(where, c)
         except SystemExit:
             self.exited = True
             self.note("exit", where)
@@ -306,13 +321,24 @@ class World(object):
             self.note("exc", where, type(e).__name__, str(e)[:200])
         return None
 
+    def on_crash(self, where, c):
+        """The armed crash point was reached: the agent process is gone."""
+        self.exited = True
+        self.crashed = True
+        self.factory = None
+        self.fs.crash(self.fs.arm_mode, self.fs.arm_keep, getattr(self.fs, "arm_lose_files", False))
+        self.note("crash", where.split(":")[0], str(c), self.fs.arm_mode, self.fs.arm_keep)
+
     # ------------------------------------------------------------------ ops
     def apply(self, op):
         """Execute one op. Returns True if it ran, False if skipped (precondition false)."""
         name = op[0]
         fn = getattr(self, "op_" + name)
         self.note("op", list(op))
-        ok = fn(*op[1:])
+        if self.exited and name not in ("restart", "arm"):
+            ok = False
+        else:
+            ok = fn(*op[1:])
         if ok:
             self.ops_done += 1
         else:
@@ -464,20 +490,24 @@ class World(object):
         self.last_rest = res
         return True
 
-    # ---- storage ops (logsim) are added by sim.simfs through the fs object
+    # ---- storage ops (logsim)
     def op_restart(self):
-        """Clean stop of the process followed by a new start (only durable state survives)."""
-        if self.fs is not None:
+        """Start the agent process again.  If it is still running this is a clean stop first (the
+        interpreter flushes open files on exit); after a crash only what the crash model let
+        survive is there."""
+        if self.fs is not None and not self.exited:
             self.fs.process_exit()
+        self.crashed = False
         self.boot()
         return True
 
-    def op_crash(self, mode="kill"):
-        if self.fs is None:
+    def op_arm(self, after_calls, mode="kill", keep=None, lose_files=False):
+        """Arm a crash `after_calls` file-system calls from now: 'kill' = process kill, 'power' =
+        power loss keeping `keep` characters of every un-synced tail."""
+        if self.fs is None or self.exited:
             return False
-        self.fs.crash(mode)
-        self.note("crash", mode)
-        self.boot()
+        self.fs.arm(after_calls, mode, keep)
+        self.fs.arm_lose_files = bool(lose_files)
         return True
 
 
